@@ -235,4 +235,72 @@ def all_families(nws=(1, 2, 3)):
                 sleep_then_spawn(nw), two_awaits_same_worker(nw)]
         out += select_cases(nw)
         out += failure_cases(nw)
+        out += heap_cases(nw)
     return out
+
+
+# ---------------------------------------------------------------- C06 heap scenarios
+def _sendable(m):
+    return m if "e" in m else c(m)
+
+
+def heap_cases(nw=2):
+    out = []
+    # double await of a process whose result is a heap binary (defect 1a shape), then another spawn
+    s = scenario("bin_double_await_w%d" % nw,
+                 [[spawn(1, 2), select(2, aw(1)), select(3, aw(1)), spawn(4, 3), select(5, aw(4)),
+                   ret(t(r(2), r(3), r(5)))],
+                  [ret(hb(1, 2))],
+                  [ret(c(I(1)))]], nw=nw)
+    out.append(meta(s, True, True, ["C06"]))
+    # two heap binaries captured by one spawn (defect 9 shape), returned in a tuple
+    s = scenario("bin_two_caps_w%d" % nw,
+                 [[let(1, hb(1, 2)), let(2, hb(3, 4)), spawn(3, 2, r(1), r(2)), select(4, aw(3)),
+                   ret(t(r(4), r(1)))],
+                  [ret(t(r(1), r(2), r(1)))]], nw=nw)
+    out.append(meta(s, True, True, ["C06"]))
+    # heap binaries as messages, stored in a tuple by the receiver, forwarded once more
+    s = scenario("bin_messages_w%d" % nw,
+                 [[spawn(1, 2), spawn(2, 3, r(1)), select(3, aw(1)), ret(r(3))],
+                  [select(1, recv(("bin",))), select(2, recv(("bin",))), ret(t(r(1), r(2)))],
+                  [send(1, hb(5, 6)), send(1, hb(7, 8, 9)), ret(OKE)]], nw=nw)
+    out.append(meta(s, True, True, ["C06", "C04"]))
+    # tuples of binaries through a pipeline stage
+    s = scenario("bin_pipeline_w%d" % nw,
+                 [[spawn(1, 2), spawn(2, 3, r(1)), send(2, t(hb(1, 1), hb(2, 2))), select(3, aw(1)), ret(r(3))],
+                  [select(1, recv(("btup",))), ret(t(r(1), r(1)))],
+                  [select(2, recv(("btup",))), send(1, r(2)), ret(OKE)]], nw=nw)
+    out.append(meta(s, True, True, ["C06"]))
+    # filter over binaries: take the middle one, drain the rest in order
+    sel = [select(8, recv(acc=[I(99)])), select(4, recv(("bin",), acc=[B(3, 4)])),
+           select(5, recv(("bin",)), tmo(0)), select(6, recv(("bin",)), tmo(0)), ret(t(r(4), r(5), r(6)))]
+    s = scenario("bin_filter_w%d" % nw,
+                 [[spawn(1, 2), send(1, hb(1, 2)), send(1, hb(3, 4)), send(1, hb(5, 6)), send(1, c(I(99))),
+                   select(2, aw(1)), ret(r(2))], sel], nw=nw)
+    out.append(meta(s, True, True, ["C06", "C05"]))
+    # a higher-priority receive finds a message while a lower-priority filter holds a binary (defect 1c shape)
+    sel = [select(8, recv(acc=[I(99)])),
+           select(4, recv(acc=[I(7)]), recv(("bin",), acc=[B(1, 2)])),
+           select(5, recv(("bin", "int")), tmo(0)), ret(t(r(4), r(5)))]
+    s = scenario("bin_filter_race_w%d" % nw,
+                 [[spawn(1, 2), send(1, hb(1, 2)), send(1, c(I(99))), send(1, c(I(7))),
+                   select(2, aw(1)), ret(c(OK))], sel], nw=nw)
+    out.append(meta(s, False, True, ["C06", "C05"]))
+    # a process that keeps a binary, awaits a failing process and dies holding it
+    s = scenario("bin_held_by_failed_w%d" % nw,
+                 [[spawn(1, 2), select(2, aw(1)), ret(r(2))],
+                  [let(3, hb(9, 9)), spawn(1, 3), select(2, aw(1)), ret(r(3))],
+                  [fail()]], nw=nw)
+    out.append(meta(s, True, True, ["C06", "C15"]))
+    return out
+
+
+# REPL sessions (no scripts: only the state-based heap rules are judged)
+HEAP_SESSIONS = [
+    ["a = [0x01, 0x02] __binary_concat__", "b = [a, a]", "a = 5", "b", "c = [b, 0x0304]", "b = 1", "c", "c = 2", "a"],
+    ["f = #'bin { [~, 0xff] __binary_concat__ }", "x = 0x01 f", "y = x f", "x = 0", "y", "z = [y, y] , 0", "y = 1", "z"],
+    ["p = @#{ [0x01, 0x02] __binary_concat__ }", "r = !p", "s = !p", "r = 0", "s", "s = 0", "q = @#{ 1 }", "!q"],
+    ["g = #'int { | =0 => [] | 5 }", "k = [0x0a, 0x0b] __binary_concat__, 0 g, m = 2", "k", "k = 1", "m = 3"],
+    ["a = [0x01, 0x02] __binary_concat__", "this does not parse (", "b = [a, undefined_name]", "a", "a = 0"],
+    ["t = [[0x01, 0x02] __binary_concat__, [0x03, 0x04] __binary_concat__]", "[u, v] = t", "t = 0", "u", "u = 0", "v"],
+]
